@@ -48,17 +48,18 @@ func listS(l []string) string {
 }
 
 type hist struct {
-	w        *World
-	out      *Out
-	rng      *Rng
-	watch    []sdk.AccAddress
-	traders  []sdk.AccAddress
-	lp, adm  sdk.AccAddress
-	outsider sdk.AccAddress
-	fund     sdk.AccAddress
-	blocked  sdk.AccAddress // a module account: refused as a recipient by x/bank
-	height   int64
-	cross    bool // a position between two non-native assets (or the same asset twice) was accepted
+	w          *World
+	out        *Out
+	rng        *Rng
+	watch      []sdk.AccAddress
+	traders    []sdk.AccAddress
+	lp, adm    sdk.AccAddress
+	outsider   sdk.AccAddress
+	fund       sdk.AccAddress
+	blocked    sdk.AccAddress // a module account: refused as a recipient by x/bank
+	height     int64
+	cross      bool // a position between two non-native assets (or the same asset twice) was accepted
+	fixedPools bool // directed history: pools of 10^24 native and 2.5 * 10^24 external
 }
 
 func (h *hist) dumpParts(ctx sdk.Context) (string, string, string, string) {
@@ -176,6 +177,10 @@ func (h *hist) setup() {
 		ext.Quo(ext, big.NewInt(int64(1+rng.Intn(999))))
 		if ext.Sign() == 0 {
 			ext.SetInt64(1)
+		}
+		if h.fixedPools {
+			nat = pow10(24)
+			ext = new(big.Int).Mul(pow10(23), big.NewInt(25))
 		}
 		r := w.Tx(func(ctx sdk.Context) error {
 			_, err := w.csrv.CreatePool(sdk.WrapSDKContext(ctx), &clptypes.MsgCreatePool{Signer: h.lp.String(), ExternalAsset: &clptypes.Asset{Symbol: d},
@@ -574,7 +579,9 @@ func (h *hist) directed(kind int) {
 	for !h.opBlock() { // to an epoch boundary: pool health and rate are set
 	}
 	t := h.traders[0]
-	amt := func(sym string, native bool) *big.Int { return new(big.Int).Quo(h.poolDepth(sym, native), big.NewInt(1000)) }
+	amt := func(sym string, native bool) *big.Int {
+		return new(big.Int).Quo(h.poolDepth(sym, native), big.NewInt(1000))
+	}
 	switch kind {
 	case 0: // F14 in the hook
 		h.doOpen(t, "rowan", "cusdc", amt("cusdc", true), margintypes.Position_LONG, sdk.NewDec(2))
@@ -610,16 +617,22 @@ func (h *hist) directed(kind int) {
 		}
 		for !h.opBlock() {
 		}
-	case 4: // liquidation of a position whose custody the interest has eaten down to dust
-		p.InterestRateMax = sdk.NewDec(3)
-		p.InterestRateMin = sdk.MustNewDecFromStr("0.99")
-		p.SafetyFactor = sdk.MustNewDecFromStr("1.9")
+	case 4: // the candidate of DESIGN 4/C13: dust positions, 190 % interest per epoch, then the administrator closes
+		// everything (AdminCloseAll sets the safety factor to 100): after the interest payment the custody
+		// left (2 units) swaps to nothing, so the pinned ForceCloseLong fails with ErrAmountTooLow after
+		// TakeOutCustody has already persisted
+		p.InterestRateMin = sdk.MustNewDecFromStr("1.9")
+		p.SafetyFactor = sdk.MustNewDecFromStr("0.5")
+		p.EpochLength = 1
 		h.setParams(&p)
-		h.doOpen(t, "rowan", "cusdc", big.NewInt(100000), margintypes.Position_LONG, sdk.NewDec(2))
-		h.doOpen(h.traders[1], "cusdc", "rowan", big.NewInt(100000), margintypes.Position_LONG, sdk.NewDec(2))
-		for i := 0; i < 6; i++ {
-			h.opBlock()
+		h.opBlock()
+		for _, a := range []int64{2, 3, 4, 5, 6, 7, 10} {
+			h.doOpen(t, "rowan", "cusdc", big.NewInt(a), margintypes.Position_LONG, sdk.NewDec(2))
 		}
+		p.SafetyFactor = sdk.NewDec(100)
+		h.setParams(&p)
+		h.opBlock()
+		h.opBlock()
 	}
 	h.out.Hist[fmt.Sprintf("directed.%d", kind)]++
 }
@@ -721,7 +734,7 @@ func init() {
 		nhist := 0
 		for out.N < n {
 			w.ctx, _ = base.CacheContext()
-			h := &hist{w: w, out: out, rng: rng}
+			h := &hist{w: w, out: out, rng: rng, fixedPools: nhist == 4}
 			h.setup()
 			if nhist < 5 {
 				h.directed(nhist)
